@@ -284,7 +284,13 @@ fn lit_int(r: &mut Rng) -> G {
 }
 
 fn lit_str(r: &mut Rng) -> G {
-    let s = *r.pick(&["", "a", "b", "ab", "c", "zz"]);
+    // mostly short; now and then literals of realistic length (interning and small-string paths
+    // behave differently above 8, 15 and 23 bytes)
+    let s = if r.chance(1, 6) {
+        *r.pick(&["customer-id/", "Hello, dear ", "abcdefgh", "0123456789abcdef", "a fairly long literal, more than 23 bytes"])
+    } else {
+        *r.pick(&["", "a", "b", "ab", "c", "zz"])
+    };
     G::Lit(format!("'{}'", s))
 }
 
